@@ -90,7 +90,20 @@ func (g *Gen) price() string {
 	}
 	return pricePool[g.r.N(len(pricePool))]
 }
-func (g *Gen) normalPrice() string { return pricePool[g.r.N(12)] }
+// prices a few units of the 18th decimal away from a round value: worth/price then lands within 1e-18 of an
+// integer, where truncation and rounding differ
+var ulpPrices = []string{
+	"7000000000000000001", "3000000000000000001", "2000000000000000001", "33333333333333333334", "6666666666666666667",
+	"1999999999999999999", "2999999999999999999", "14285714285714285715", "100000000000000000001", "2500000000000000001",
+	"3333333333333333334", "11000000000000000001",
+}
+
+func (g *Gen) normalPrice() string {
+	if g.r.P(22) {
+		return ulpPrices[g.r.N(len(ulpPrices))]
+	}
+	return pricePool[g.r.N(12)]
+}
 
 func (g *Gen) amount() string {
 	if g.r.P(g.bad()) {
